@@ -11,7 +11,9 @@
 (* (Value).  The sink is an io::Write: a write call may accept any non-empty  *)
 (* prefix of what it is offered, and the contract is about the bytes the sink *)
 (* accepted in total (the replay uses sinks that take everything, one byte,   *)
-(* three bytes, or 7 / 1 / 64 bytes per call).  Nothing dynamic is model-checked here: TLC enumerates the record *)
+(* three bytes, or 7 / 1 / 64 bytes per call, one call interrupted).  MaxLen   *)
+(* bounds the enumeration only: the contract has no length limit, and the     *)
+(* replay adds records with fields of 255 .. 70 001 characters.  Nothing dynamic is model-checked here: TLC enumerates the record *)
 (* space and supplies the expected abstract line for the conformance step.    *)
 (***************************************************************************)
 EXTENDS Integers, Sequences, FiniteSets, TLC
